@@ -139,6 +139,17 @@ def fault_calls():
         ("np.sqrt(degF, out=target)", "offset", lambda t: np.sqrt(unyt_array(np.ones(t.q.shape), "degF"), out=t.q)),
         ("np.clip(a, lo other dimension, hi, out=target)", "dimension", lambda t: np.clip(a2(t), unyt_quantity(0.0, "s"), unyt_quantity(1.0, "s"), out=t.q)),
         ("np.add(a, other dimension, out=target, where=True)", "dimension", lambda t: np.add(a2(t), s2(t), out=t.q, where=True)),
+        # read-only targets: NumPy refuses the write; the label must not have moved on without the numbers
+        ("convert_to_cgs (read-only target)", "read-only", lambda t: (t.q.setflags(write=False), t.q.convert_to_cgs())),
+        ("convert_to_base(galactic) (read-only target)", "read-only", lambda t: (t.q.setflags(write=False), t.q.convert_to_base("galactic"))),
+        ("convert_to_units(2*unit) (read-only target)", "read-only", lambda t: (t.q.setflags(write=False), t.q.convert_to_units(2 * t.q.units))),
+        ("convert_to_equivalent(spectral) (read-only target)", "read-only", lambda t: (t.q.setflags(write=False), t.q.convert_to_equivalent("Hz", "spectral"))),
+        ("x *= x (read-only target)", "read-only", lambda t: (t.q.setflags(write=False), t.q.__imul__(t.q.copy()))),
+        ("x /= quantity (read-only target)", "read-only", lambda t: (t.q.setflags(write=False), t.q.__itruediv__(unyt_quantity(2.0, "s")))),
+        ("np.multiply(a, a, out=read-only target)", "read-only", lambda t: (t.q.setflags(write=False), np.multiply(a2(t), a2(t), out=t.q))),
+        ("np.sqrt(a, out=read-only target)", "read-only", lambda t: (t.q.setflags(write=False), np.sqrt(a2(t), out=t.q))),
+        ("x[0] = quantity (read-only target)", "read-only", lambda t: (t.q.setflags(write=False), t.q.__setitem__(0 if t.q.ndim else (), a2(t).ravel()[0]))),
+        ("x.fill(quantity) (read-only target)", "read-only", lambda t: (t.q.setflags(write=False), t.q.fill(a2(t).ravel()[0]))),
         ("x *= x (offset scale)", "offset", lambda t: t.q.__imul__(2.0) if t.q.units.base_offset else (_ for _ in ()).throw(TypeError("n/a"))),
         ("x /= 2 (offset scale)", "offset", lambda t: t.q.__itruediv__(2.0) if t.q.units.base_offset else (_ for _ in ()).throw(TypeError("n/a"))),
         ("x //= other dimension ... (allowed: different dims divide)", "none", None),
